@@ -17,6 +17,7 @@ import (
 	"bytes"
 	"encoding/binary"
 	"encoding/hex"
+	"errors"
 	"fmt"
 	"math/big"
 	"slices"
@@ -34,6 +35,7 @@ import (
 	"github.com/nspcc-dev/neo-go/pkg/core/native/noderoles"
 	"github.com/nspcc-dev/neo-go/pkg/core/state"
 	"github.com/nspcc-dev/neo-go/pkg/core/storage"
+	"github.com/nspcc-dev/neo-go/pkg/core/storage/dbconfig"
 	"github.com/nspcc-dev/neo-go/pkg/core/transaction"
 	"github.com/nspcc-dev/neo-go/pkg/crypto/keys"
 	"github.com/nspcc-dev/neo-go/pkg/encoding/bigint"
@@ -207,9 +209,12 @@ func dumpAll(bc *core.Blockchain, ids []int32) dump {
 // keepStore is a MemoryStore that survives Blockchain.Close (the node's database on disk). While
 // rec is set it records the write batches that reach it (the crash points of a state reset).
 type keepStore struct {
-	*storage.MemoryStore
-	rec     bool
-	batches []changeSet
+	storage.Store
+	// failNext makes the next PutChangeSet fail without writing anything (a write error of the DB)
+	failNext bool
+	failed   int
+	rec      bool
+	batches  []changeSet
 }
 
 type changeSet struct{ puts, stor map[string][]byte }
@@ -217,6 +222,11 @@ type changeSet struct{ puts, stor map[string][]byte }
 func (*keepStore) Close() error { return nil }
 
 func (s *keepStore) PutChangeSet(puts, stor map[string][]byte) error {
+	if s.failNext {
+		s.failNext = false
+		s.failed++
+		return errors.New("verif: injected write error")
+	}
 	if s.rec {
 		cp := func(m map[string][]byte) map[string][]byte {
 			r := make(map[string][]byte, len(m))
@@ -231,14 +241,14 @@ func (s *keepStore) PutChangeSet(puts, stor map[string][]byte) error {
 		}
 		s.batches = append(s.batches, changeSet{cp(puts), cp(stor)})
 	}
-	return s.MemoryStore.PutChangeSet(puts, stor)
+	return s.Store.PutChangeSet(puts, stor)
 }
 
 // snapshot copies the whole database.
 func (s *keepStore) snapshot() changeSet {
 	cs := changeSet{map[string][]byte{}, map[string][]byte{}}
 	for b := 0; b < 256; b++ {
-		s.MemoryStore.Seek(storage.SeekRange{Prefix: []byte{byte(b)}}, func(k, v []byte) bool {
+		s.Store.Seek(storage.SeekRange{Prefix: []byte{byte(b)}}, func(k, v []byte) bool {
 			if b == int(storage.STStorage) || b == int(storage.STTempStorage) {
 				cs.stor[string(k)] = bytes.Clone(v)
 			} else {
@@ -252,10 +262,10 @@ func (s *keepStore) snapshot() changeSet {
 
 // crashedCopy is the database a crash after the first n recorded batches leaves behind.
 func crashedCopy(snap changeSet, batches []changeSet, n int) *keepStore {
-	st := &keepStore{MemoryStore: storage.NewMemoryStore()}
-	_ = st.MemoryStore.PutChangeSet(snap.puts, snap.stor)
+	st := &keepStore{Store: storage.NewMemoryStore()}
+	_ = st.Store.PutChangeSet(snap.puts, snap.stor)
 	for _, b := range batches[:n] {
-		_ = st.MemoryStore.PutChangeSet(b.puts, b.stor)
+		_ = st.Store.PutChangeSet(b.puts, b.stor)
 	}
 	return st
 }
@@ -845,7 +855,21 @@ func runCase(o *hx.Out, f *hx.Flags, k int, t *tb) {
 	}
 	o.Count(fmt.Sprintf("state-mode:%d", stMode))
 	// the node's database outlives the Blockchain object (restart / reset scenarios)
-	st := &keepStore{MemoryStore: storage.NewMemoryStore()}
+	// failing-flush schedule class: one write of the DB fails at a random flush with blocks waiting; on
+	// MemoryStore or on a disk backend (LevelDB in a temporary directory)
+	flushFail := (stMode != 2 && r.Chance(1, 3)) || corpus
+	var backend storage.Store = storage.NewMemoryStore()
+	if flushFail && (r.Chance(1, 2) || corpus) {
+		ldb, err := storage.NewLevelDBStore(dbconfig.LevelDBOptions{DataDirectoryPath: t.TempDir()})
+		if err != nil {
+			o.Fail("harness-leveldb", k, "%v", err)
+			return
+		}
+		t.Cleanup(func() { _ = ldb.Close() })
+		backend = ldb
+		o.Count("flush:backend-leveldb")
+	}
+	st := &keepStore{Store: backend}
 	openOn := func(st storage.Store, run bool) (*core.Blockchain, neotest.Signer) {
 		b, a := chain.NewSingleWithCustomConfigAndStore(t, func(c *config.Blockchain) {
 			switch stMode {
@@ -1110,6 +1134,37 @@ func runCase(o *hx.Out, f *hx.Flags, k int, t *tb) {
 	live := map[string]bool{}
 	// the limit family is part of the keys the blocks write, rewrite and delete
 	usedKeys := [][]byte{limitKey(64, 0x01, 0x02), limitKey(63, 0x01), limitKey(64, 0x01, 0x10)}
+	checkVisible := func(tag string, h uint32) (ok bool) {
+		ok = true
+		rec := recs[h]
+		if bc.BlockHeight() != h {
+			ok = false
+			o.Fail(tag+"height", k, "node is at %d, expected %d", bc.BlockHeight(), h)
+			return
+		}
+		if d := dumpAll(bc, ids); !sameDump(d, rec.d) {
+			ok = false
+			o.Fail(tag+"storage-mismatch", k, "height %d: storage visible through SeekStorage differs from the storage the root of %d commits to: %s", h, h, diffDump(d, rec.d))
+		}
+		for i, rd := range reads {
+			if got := runRO(bc, e, rd.script, 0, false); got != rec.reads[i] {
+				ok = false
+				o.Fail(tag+"read-mismatch", k, "height %d %s: now %s, was %s", h, rd.desc, got, rec.reads[i])
+				break
+			}
+		}
+		for i, fr := range finds {
+			if h < deployedAt {
+				break
+			}
+			if got := runFind(bc, e, fr.script, 0, false); got != rec.finds[i] {
+				ok = false
+				o.Fail(tag+"find-mismatch", k, "height %d %s: now %s, was %s", h, fr.line("live"), got, rec.finds[i])
+				break
+			}
+		}
+		return
+	}
 	commitBlock := func(txs []*transaction.Transaction) {
 		e.AddNewBlock(t, txs...)
 		record()
@@ -1399,8 +1454,47 @@ func runCase(o *hx.Out, f *hx.Flags, k int, t *tb) {
 			o.Fail("validated-root-accepted", k, "AddStateRoot(%d) kind %d (1 = another root, 2 = bad signature) accepted", i, kind)
 		}
 	}
+	// failedFlush: the DB refuses one write while blocks with storage changes are waiting to be flushed.
+	// Nothing may change for the readers: the storage the node serves must still be the one its top state
+	// root commits to (checked here and, through all the historic paths, at the end); the following blocks,
+	// a later successful flush and the restart / reset scenarios run on top of it.
+	failAt := -1
+	if flushFail {
+		failAt = r.Intn(nBlocks)
+	}
+	failedFlush := func() {
+		w := io.NewBufBinWriter()
+		emit.AppCall(w.BinWriter, c.Hash, "put", callflag.All, genKey(r, 1), []byte{0xF1})
+		emit.AppCall(w.BinWriter, c.Hash, "del", callflag.All, usedKeys[r.Intn(len(usedKeys))])
+		commitBlock([]*transaction.Transaction{e.PrepareInvocation(t, w.Bytes(), []neotest.Signer{e.Validator})})
+		st.failNext = true
+		perr := bc.VerifPersist()
+		if st.failed == 0 {
+			st.failNext = false
+			return // nothing was waiting to be written
+		}
+		o.Line("flush 0", "ok")
+		o.Count("flush:failed")
+		if perr == nil {
+			o.Count("flush:failed-by-timer")
+		}
+		if !checkVisible("flushfail-", bc.BlockHeight()) {
+			return
+		}
+		for i := r.Range(0, 2); i > 0; i-- {
+			addRandomBlock()
+		}
+		if err := bc.VerifPersist(); err != nil {
+			o.Fail("flush-retry-error", k, "the flush after the failed one: %v", err)
+		}
+		o.Line("flush 1", "ok")
+		checkVisible("flushretry-", bc.BlockHeight())
+	}
 	for b := 0; b < nBlocks; b++ {
 		addRandomBlock()
+		if b == failAt {
+			failedFlush()
+		}
 		if r.Chance(1, 3) {
 			validatedProbe()
 		}
@@ -1436,41 +1530,39 @@ func runCase(o *hx.Out, f *hx.Flags, k int, t *tb) {
 		}
 	}
 	stateRoots("")
+	// a healthy replica fed the same blocks must compute the same state root at every height
+	if flushFail {
+		rb, _ := chain.NewSingleWithCustomConfigAndStore(t, func(c *config.Blockchain) {
+			if stMode == 1 {
+				c.Ledger.RemoveUntraceableBlocks = true
+			}
+		}, storage.NewMemoryStore(), false)
+		go rb.Run()
+		func() {
+			defer rb.Close()
+			for h := uint32(1); h <= bc.BlockHeight(); h++ {
+				blk, err := bc.GetBlock(bc.GetHeaderHash(h))
+				if err != nil {
+					o.Fail("replica-block", k, "block %d: %v", h, err)
+					return
+				}
+				if err := rb.AddBlock(blk); err != nil {
+					o.Fail("replica-rejects-block", k, "a healthy replica rejects block %d of the node that had a failed flush: %v", h, err)
+					return
+				}
+				sr, err := rb.GetStateModule().GetStateRoot(h)
+				if rec := recs[h]; err != nil || rec == nil || sr.Root != rec.root {
+					o.Fail("replica-root-mismatch", k, "height %d: the healthy replica has another state root than the node that had a failed flush", h)
+					return
+				}
+				o.Count("replica:heights")
+			}
+		}()
+	}
 
 	// ---- restart / state reset inside the history -----------------------------------------
 	// after a restart or a Reset(target) the node must show, through every API, exactly the storage
 	// its (new) top state root commits to; then the chain goes on with new blocks
-	checkVisible := func(tag string, h uint32) (ok bool) {
-		ok = true
-		rec := recs[h]
-		if bc.BlockHeight() != h {
-			ok = false
-			o.Fail(tag+"height", k, "node is at %d, expected %d", bc.BlockHeight(), h)
-			return
-		}
-		if d := dumpAll(bc, ids); !sameDump(d, rec.d) {
-			ok = false
-			o.Fail(tag+"storage-mismatch", k, "height %d: storage visible through SeekStorage differs from the storage the root of %d commits to: %s", h, h, diffDump(d, rec.d))
-		}
-		for i, rd := range reads {
-			if got := runRO(bc, e, rd.script, 0, false); got != rec.reads[i] {
-				ok = false
-				o.Fail(tag+"read-mismatch", k, "height %d %s: now %s, was %s", h, rd.desc, got, rec.reads[i])
-				break
-			}
-		}
-		for i, fr := range finds {
-			if h < deployedAt {
-				break
-			}
-			if got := runFind(bc, e, fr.script, 0, false); got != rec.finds[i] {
-				ok = false
-				o.Fail(tag+"find-mismatch", k, "height %d %s: now %s, was %s", h, fr.line("live"), got, rec.finds[i])
-				break
-			}
-		}
-		return
-	}
 	scenario := 0
 	if stMode != 2 && !corpus {
 		scenario = r.Weighted([]int{4, 3, 4})
